@@ -327,6 +327,9 @@ func (x *Exec) staticCall(st *State, in *ssa.Call, fv FuncV, args []Value) []Out
 	if outs, ok := x.formatCall(st, in, key, args); ok {
 		return outs
 	}
+	if key == "sort.Slice" || key == "sort.SliceStable" {
+		x.sortSliceEffect(st, in, args)
+	}
 	c := x.v.cs.Contracts[key]
 	if c != nil && !c.Inline {
 		x.v.noteUse(x.key, key)
@@ -912,6 +915,50 @@ func (x *Exec) copyCall(st *State, in *ssa.Call, args []Value) []Outcome {
 	// a copy of zero elements leaves the heap alone (also covers the nil destination)
 	st.heap[key] = Ite(Eq(n, IntLit(0)), h, Store(h, ref, na))
 	return []Outcome{{st, []Value{TV{n, types.Typ[types.Int]}}}}
+}
+
+// sortSliceEffect: sort.Slice(x, less) / sort.SliceStable permute the elements of
+// the slice boxed in x: afterwards every element is one of the old elements and
+// every old element is still there; everything outside the slice's window is
+// untouched.  (The order itself is the business of the library contract.)
+func (x *Exec) sortSliceEffect(st *State, in *ssa.Call, args []Value) {
+	if len(args) == 0 {
+		return
+	}
+	tv, ok := args[0].(TV)
+	if !ok || !strings.HasPrefix(tv.T.Op, "box_") || len(tv.T.Args) != 1 || tv.T.Args[0].Sort != SSlice {
+		x.assumeNote("sort.Slice on a value that is not a freshly boxed slice: its permutation of the elements is not modelled")
+		return
+	}
+	var elem types.Type
+	if mi, ok := in.Call.Args[0].(*ssa.MakeInterface); ok {
+		if sl, ok := mi.X.Type().Underlying().(*types.Slice); ok {
+			elem = sl.Elem()
+		}
+	}
+	if elem == nil {
+		x.assumeNote("sort.Slice: element type unknown; its permutation of the elements is not modelled")
+		return
+	}
+	sl := tv.T.Args[0]
+	ref, off, ln := Sel("s-ref", sl), Sel("s-off", sl), Sel("s-len", sl)
+	key, h := x.heapTerm(st, elem)
+	oldArr := Select(h, ref)
+	na := x.fresh("sorted", ArraySort(SInt, x.ti.SortOf(elem)))
+	x.counter++
+	a := Atom(fmt.Sprintf("a!s%d", x.counter), SInt)
+	b := Atom(fmt.Sprintf("b!s%d", x.counter), SInt)
+	in1 := func(v *Term) *Term { return And(Le(off, v), Lt(v, Add(off, ln))) }
+	// each new element is an old one, each old element is a new one, the rest is untouched
+	st.assume(&Term{Op: "forall", Sort: SBool, Bound: []*Term{a}, Args: []*Term{
+		Implies(in1(a), &Term{Op: "exists", Sort: SBool, Bound: []*Term{b}, Args: []*Term{And(in1(b), Eq(Select(na, a), Select(oldArr, b)))}})}, Pats: []*Term{Select(na, a)}})
+	st.assume(&Term{Op: "forall", Sort: SBool, Bound: []*Term{b}, Args: []*Term{
+		Implies(in1(b), &Term{Op: "exists", Sort: SBool, Bound: []*Term{a}, Args: []*Term{And(in1(a), Eq(Select(na, a), Select(oldArr, b)))}})}, Pats: []*Term{Select(oldArr, b)}})
+	x.counter++
+	c := Atom(fmt.Sprintf("c!s%d", x.counter), SInt)
+	st.assume(&Term{Op: "forall", Sort: SBool, Bound: []*Term{c}, Args: []*Term{
+		Implies(Not(in1(c)), Eq(Select(na, c), Select(oldArr, c)))}, Pats: []*Term{Select(na, c)}})
+	st.heap[key] = Store(h, ref, na)
 }
 
 // formatCall: fmt.Sprintf / fmt.Errorf with a constant number of operands are
